@@ -20,6 +20,13 @@ CHECKS = [
         "text": "Decides for every schedule at once the structural conditions of exactly-once, in-order delivery: inserting accesses to the shared channel map (incl. defaultdict misses) hold the map lock; the map is iterated over a snapshot; entries are never removed/replaced while a publisher may hold them; subscriptions alias the live map; consumer test+pop are one critical section under the channel's own lock; opposite deque ends; each popped message is yielded exactly once and only popped messages are yielded; pop and yield are dominated by fnmatch(channel, pattern).",
         "note": "Assumes GIL atomicity of single dict/deque C calls and that a defaultdict miss runs its Python factory non-atomically. Liveness is not decided. No thread is ever run.",
     },
+    {
+        "property_id": "C15",
+        "design_ref": "DESIGN.md section 3, C15",
+        "technique": "static analysis: must-pass-through on a CFG with exception edges (status publish on every exit of the job body, helper summarised one level), occurrence counting for resolve-once, ordering, writer/reader key and polarity agreement, def-use of per-job values; transport lockset rules re-applied",
+        "text": "Decides for every batch/schedule: every way of leaving a picked-up job's iteration passes a jobs.<job_id>.status publish for that message's id; the master completes a pending future exactly once (set_result xor set_exception) under the membership guard and removes the entry; a failure path exists whose marker test is true for every value a worker failure can write and false for successes; the future is registered before the job is queued; job id, channel templates and metadata/context keys agree hop by hop and the payload/pipeline executed come from this message only; the in-memory transport rules of C14 (the hand-over mechanism the anchors name) hold.",
+        "note": "Assumes logger calls and the failure handlers themselves do not raise before publishing, uuid4 uniqueness, and CPython atomicity as in C14. Does not decide equality of the delivered result with a direct run.",
+    },
 ]
 _TODO = "check not built yet in this session (planned: DESIGN.md section 3); not claimed until its rules run clean and fire on their variants"
 NOT_APPLICABLE = [
